@@ -28,6 +28,10 @@ type c05in struct {
 	WindowOnly bool `json:"window_only,omitempty"`
 	OffGrid    bool `json:"off_grid,omitempty"` // the asset's segment ends are not whole milliseconds
 	AcrossStop bool `json:"across_stop,omitempty"` // one instant before, the other after the stop time
+	// AtoPeriodGap: multi-period MPD with availabilityTimeOffset > 0 and an instant in [B-ato, B] for
+	// a period boundary B: the segments of the next Period that are already available are listed
+	// only once that Period exists (at B)
+	AtoPeriodGap bool `json:"ato_period_gap,omitempty"`
 }
 
 func availRat(e, ts int64, c lib.TLCfg) *big.Rat {
@@ -302,6 +306,15 @@ func evalSweep(c *lib.Ctx, s *sweep, si int, distinct map[string]bool, each func
 	var runFrom int64
 	runExact := false
 	multi := strings.Contains(s.cfg.Extra, "periods")
+	// gap: the instant lies in [B-ato, B] for a period boundary B of a multi-period configuration
+	gap := func(now int64) bool {
+		pm := periodMS(s.cfg.Extra)
+		if !multi || s.cfg.AtoMS <= 0 || pm <= 0 {
+			return false
+		}
+		r := (now - s.cfg.StartS*1000 + s.cfg.AtoMS) % pm
+		return now >= s.cfg.StartS*1000 && r >= 0 && r <= s.cfg.AtoMS
+	}
 	for oi, o := range s.obs {
 		id := fmt.Sprintf("s%d.%d", si, oi)
 		c.Res.Inputs[id] = s.in(o, "mpd")
@@ -356,7 +369,8 @@ func evalSweep(c *lib.Ctx, s *sweep, si int, distinct map[string]bool, each func
 				}
 				if o.now == b && o.lastT != ref.LoopS(n) {
 					in.Check = "edge-step"
-					c.Fail(id, "edge-not-advanced", fmt.Sprintf("%s: segment index %d (t=%d) becomes available at this instant but the last entry is t=%d", o.url, n, ref.LoopS(n), o.lastT), in)
+					in.AtoPeriodGap = gap(o.now)
+					c.Fail(id, "edge-not-advanced"+gapSfx(in.AtoPeriodGap), fmt.Sprintf("%s: segment index %d (t=%d) becomes available at this instant but the last entry is t=%d", o.url, n, ref.LoopS(n), o.lastT), in)
 				}
 				if o.now == b-1 && o.lastT != ref.LoopS(n-1) && s.avail[n-1] <= o.now {
 					in.Check = "edge-step"
@@ -374,7 +388,8 @@ func evalSweep(c *lib.Ctx, s *sweep, si int, distinct map[string]bool, each func
 			}
 			if prev.lastT > o.lastT {
 				pin.Check = "last-monotone"
-				c.Fail(id, "last-entry-backwards", fmt.Sprintf("last entry t=%d at %s, t=%d at the earlier %s", o.lastT, o.url, prev.lastT, prev.url), pin)
+				pin.AtoPeriodGap = gap(o.now)
+				c.Fail(id, "last-entry-backwards"+gapSfx(pin.AtoPeriodGap), fmt.Sprintf("last entry t=%d at %s, t=%d at the earlier %s", o.lastT, o.url, prev.lastT, prev.url), pin)
 			}
 			if prev.mo.PublishMS > o.mo.PublishMS {
 				pin.Check = "publish-monotone"
@@ -394,6 +409,9 @@ func evalSweep(c *lib.Ctx, s *sweep, si int, distinct map[string]bool, each func
 					key += ":across-stop"
 				case pin.WindowOnly:
 					key += ":window-start-moved"
+				case gap(q.now) || gap(o.now):
+					pin.AtoPeriodGap = true
+					key += ":ato-period-gap"
 				}
 				c.Fail(id, key, fmt.Sprintf("%s and %s have the same publishTime %s but differ (first entries t=%d / t=%d, last t=%d / t=%d, %d / %d segments)", q.url, o.url, o.mo.PublishStr, q.firstT, o.firstT, q.lastT, o.lastT, q.nListed, o.nListed), pin)
 			}
@@ -419,8 +437,12 @@ func evalSweep(c *lib.Ctx, s *sweep, si int, distinct map[string]bool, each func
 			pin.PrevMS = runFrom
 			pin.WindowOnly = prev != nil && prev.lastT == o.lastT && o.now == runFrom
 			key := "publish-not-last-change"
-			if pin.WindowOnly {
+			pin.AtoPeriodGap = gap(o.now) && o.now == runFrom
+			switch {
+			case pin.WindowOnly:
 				key += ":window-start-moved"
+			case pin.AtoPeriodGap:
+				key += ":ato-period-gap"
 			}
 			c.Fail(id, key, fmt.Sprintf("%s: the MPD last changed at %d ms, publishTime is %s (%d ms)", o.url, runFrom, o.mo.PublishStr, o.mo.PublishMS), pin)
 			runExact = false // report once per run
@@ -435,4 +457,24 @@ func evalSweep(c *lib.Ctx, s *sweep, si int, distinct map[string]bool, each func
 		}
 		prev = o
 	}
+}
+
+// periodMS: the period duration of a periods_N configuration element (N periods per hour), 0 if none.
+func periodMS(extra string) int64 {
+	for _, e := range strings.Split(extra, "/") {
+		if strings.HasPrefix(e, "periods_") {
+			var n int64
+			if _, err := fmt.Sscanf(e, "periods_%d", &n); err == nil && n > 0 {
+				return 3600000 / n
+			}
+		}
+	}
+	return 0
+}
+
+func gapSfx(b bool) string {
+	if b {
+		return ":ato-period-gap"
+	}
+	return ""
 }
